@@ -610,5 +610,39 @@ def rule_r6(ctx) -> RuleResult:
     return rr
 
 
+def rule_r7(ctx) -> RuleResult:
+    """The Lua view reads every frame argument through `frame:preprocess` (the args metatable calls it lazily on each value), so
+    whatever that closure does to its text before expanding it happens to *every argument value the module sees*.  make_frame
+    keeps positional values verbatim (R3); the closure has to as well: between taking the text and handing it to
+    `_encode` / the expander, the text variable may not be re-assigned from a trimming or replacing operation on itself
+    (seed C14-9B: `v = v.strip("\\n")` "because a heading is normally passed on a line of its own")."""
+    rr = RuleResult("C14.R7", "frame:preprocess hands the text it was given to the expander unaltered", min_instances=1)
+    dotted = "luaexec.call_lua_sandbox.make_frame.preprocess"
+    fn = ctx.fn(dotted)
+    enc = [c for c in walk_no_nested(fn) if isinstance(c, ast.Call) and unparse(c.func).endswith("._encode") and c.args and isinstance(c.args[0], ast.Name)]
+    if not enc:
+        raise AnalysisError("preprocess: the call that encodes the text for expansion was not found")
+    var = enc[0].args[0].id
+    altering = {"strip", "lstrip", "rstrip", "replace", "lower", "upper", "title", "capitalize", "casefold", "expandtabs", "translate",
+                "removeprefix", "removesuffix", "sub", "splitlines", "split", "join", "normalize"}
+    n_assign = 0
+    for n in walk_no_nested(fn):
+        if isinstance(n, ast.Assign) and len(n.targets) == 1 and isinstance(n.targets[0], ast.Name) and n.targets[0].id == var and n.lineno < enc[0].lineno:
+            n_assign += 1
+            calls = [c for c in ast.walk(n.value) if isinstance(c, ast.Call) and isinstance(c.func, ast.Attribute) and c.func.attr in altering
+                     and any(isinstance(x, ast.Name) and x.id == var for x in ast.walk(c))]
+            sl = [x for x in ast.walk(n.value) if isinstance(x, ast.Subscript) and isinstance(x.slice, ast.Slice) and isinstance(x.value, ast.Name) and x.value.id == var]
+            if calls or sl:
+                rr.bad(Finding("C14.R7", LUAEXEC, dotted, unparse(n)[:70],
+                               "the text is altered ({}) before it is expanded; every value of frame.args goes through this closure, so the "
+                               "module sees positional arguments changed while the parser's and the expander's views keep them verbatim".format(
+                                   unparse((calls or sl)[0])[:40]), n.lineno))
+            else:
+                rr.ok(dotted, "`{}` keeps the text".format(unparse(n)[:50]))
+    if n_assign == 0:
+        rr.ok(dotted, "the parameter reaches _encode directly")
+    return rr
+
+
 def run(ctx) -> list:
-    return [rule_r1(ctx), rule_r2(ctx), rule_r3(ctx), rule_r4(ctx), rule_r5(ctx), rule_r6(ctx)]
+    return [rule_r1(ctx), rule_r2(ctx), rule_r3(ctx), rule_r4(ctx), rule_r5(ctx), rule_r6(ctx), rule_r7(ctx)]
